@@ -432,10 +432,22 @@ fn case_atom(bytes: &[u8], ctx: &mut Ctx) -> CaseResult {
     Ok(())
 }
 
-/// random atoms: length 0..=20, bytes biased to the interesting alphabet
+/// random atoms: length 0..=20 (rarely up to 64 KiB), bytes biased to the interesting alphabet
 fn case_atom_random(bytes: &[u8], ctx: &mut Ctx) -> CaseResult {
     let mut s = Src::new(bytes);
-    let len = s.below(21);
+    // mostly 0..=20 bytes; sometimes an oversized atom whose length lies around a
+    // power of two up to 64 KiB (1 KiB is the limit of announcement messages,
+    // 8 KiB and 64 KiB are serialization / caching thresholds) — every integer
+    // slot of a condition can be handed such an atom
+    let len = if s.chance(8) {
+        let k = 5 + s.below(12);
+        ((1usize << k) + s.below(5)).saturating_sub(2)
+    } else {
+        s.below(21)
+    };
+    if len > 20 {
+        ctx.label(if len > 1024 { "atom-random:longer-than-1024" } else { "atom-random:21..1024" });
+    }
     let mut atom = Vec::with_capacity(len);
     for _ in 0..len {
         let b = match s.below(8) {
@@ -624,12 +636,12 @@ fn main() {
             },
             SubCheck {
                 name: "atoms-random",
-                about: "random atoms up to 20 bytes biased to {00,01,7f,80,ff}",
+                about: "random atoms up to 20 bytes (3% oversized: 30 bytes .. 64 KiB around powers of two) biased to {00,01,7f,80,ff}",
                 source: Source::Random { len: 48, quick: 6_000_000, thorough: 100_000_000 },
                 run: case_atom_random,
                 inflight: false,
                 min_nontrivial: 100_000,
-                required_labels: &[],
+                required_labels: &["atom-random:longer-than-1024", "atom-random:21..1024"],
             },
             SubCheck {
                 name: "u64-dense",
